@@ -18,6 +18,8 @@ pub enum Mode {
     OneShotHeader,
     OneShotRaw,
     Stream,
+    /// Stream with allow_incomplete on, fed only a prefix of the input
+    StreamIncomplete,
 }
 
 #[derive(Clone, Debug, Hash, Serialize, Deserialize)]
@@ -32,6 +34,9 @@ pub struct Case {
     pub m_class: String,
     /// piece sizes for Mode::Stream
     pub pieces: Vec<usize>,
+    /// Mode::StreamIncomplete: how many input bytes are fed
+    #[serde(default)]
+    pub prefix: usize,
 }
 
 #[derive(Clone, Debug)]
@@ -48,6 +53,61 @@ pub struct Abs {
 }
 
 pub struct C10;
+
+impl C10 {
+    /// allow_incomplete: the limit applies to what is actually produced from the prefix
+    fn judge_incomplete(&self, c: &Case, st: &mut LocalStats, file: &[u8], expected: &[u8], d: u64) -> Judgement {
+        let input = &file[..c.prefix.min(file.len())];
+        let script: Vec<sut::Call> = c.pieces.iter().map(|p| sut::Call::Write(*p)).collect();
+        let mut opts = Opts::with(USize::ReadFromHeader);
+        opts.allow_incomplete = true;
+        st.evals(2);
+        let free = sut::stream_run(input, &opts, &script, &SinkCfg::default(), false);
+        if !free.verdict.is_ok() {
+            // C15's business; here only a precondition
+            return Judgement::Pass;
+        }
+        let produced = free.out.len() as u64;
+        let need = d.min(produced);
+        let expect_ok = need <= c.m;
+        st.class("mode:StreamIncomplete");
+        st.class(&format!("m:{}", c.m_class));
+        st.class(if expect_ok { "expect:Ok" } else { "expect:Err" });
+        if produced < expected.len() as u64 && c.m >= need && c.m < d.min(expected.len() as u64) {
+            st.class("incomplete: limit between produced and announced size");
+        }
+        st.nontrivial(c);
+        opts.memlimit = Some(c.m);
+        let lim = sut::stream_run(input, &opts, &script, &SinkCfg::default(), false);
+        let what = format!(
+            "Stream(allow_incomplete) fed {} of {} bytes (pieces {:?}): unlimited run produces {} bytes (need = min(dict {}, produced) = {}), limit m={} ({}) -> {} with {} bytes ; props={:?} ops=[{}]",
+            input.len(),
+            file.len(),
+            &c.pieces[..c.pieces.len().min(12)],
+            produced,
+            d,
+            need,
+            c.m,
+            c.m_class,
+            lim.verdict.brief(),
+            lim.out.len(),
+            c.props,
+            program_text(&c.ops, 16)
+        );
+        match (&lim.verdict, expect_ok) {
+            (Verdict::Ok, true) => {
+                if lim.out != free.out {
+                    return Judgement::violation("wrong-output-under-limit", what);
+                }
+            }
+            (Verdict::Err(_), false) => {}
+            (Verdict::Ok, false) => return Judgement::violation("limit-ignored", format!("needed window exceeds the limit but decoding succeeds: {}", what)),
+            (Verdict::Err(_), true) => return Judgement::violation("limit-too-strict", format!("needed window fits the limit but decoding fails: {}", what)),
+            (Verdict::Panic(p), _) => return Judgement::violation(format!("panic:{}", sut::panic_site(p)), format!("{} ; {}", p, what)),
+        }
+        Judgement::Pass
+    }
+}
 
 fn eff_dict(mode: Mode, dict: u32) -> u64 {
     match mode {
@@ -91,6 +151,7 @@ impl Property for C10 {
             3 => (Just(Mode::OneShotHeader), dict_header()),
             3 => (Just(Mode::OneShotRaw), dict_raw()),
             4 => (Just(Mode::Stream), dict_header()),
+            3 => (Just(Mode::StreamIncomplete), dict_header()),
         ];
         (
             props_any(),
@@ -126,11 +187,20 @@ impl Property for C10 {
         );
         let l: u64 = ops.iter().map(|o| op_out_len(o) as u64).sum();
         let need = d.min(l);
-        let (m, m_class) = limit_for(a.m_class, a.m_sel, need, d);
         let enc = encode_lzma(a.props, &ops, if a.with_size { None } else { Some(2) });
         let n = 13 + enc.payload.len();
         let sym_ends: Vec<usize> = enc.table.iter().map(|t| 13 + t.consumed as usize).collect();
-        let pieces = concretize_chunking(&a.chunking, n, 13, &sym_ends);
+        // incomplete mode: feed a prefix; the window needed is min(D, bytes produced from it)
+        let mut prefix = n;
+        let mut need = need;
+        if a.mode == Mode::StreamIncomplete {
+            prefix = pick(a.m_sel.rotate_left(5), 18.min(n as u64), n as u64) as usize;
+            let idx = sym_ends.partition_point(|e| *e + 40 <= prefix);
+            let produced = if idx == 0 { 0 } else { enc.table[idx - 1].produced };
+            need = d.min(produced);
+        }
+        let (m, m_class) = limit_for(a.m_class, a.m_sel, need, d);
+        let pieces = concretize_chunking(&a.chunking, prefix, 13, &sym_ends);
         Case {
             props: a.props,
             dict: a.dict,
@@ -140,6 +210,7 @@ impl Property for C10 {
             m,
             m_class: m_class.to_string(),
             pieces,
+            prefix,
         }
     }
     fn rule(&self) -> String {
@@ -159,6 +230,8 @@ impl Property for C10 {
             ("expect:Err", 5000 * k),
             ("expect:Ok", 5000 * k),
             ("window grows inside a copy past the limit", 300 * k),
+            ("mode:StreamIncomplete", 5000 * k),
+            ("incomplete: limit between produced and announced size", 300 * k),
         ]
     }
 
@@ -174,6 +247,9 @@ impl Property for C10 {
         let size = if c.with_size { Some(l) } else { None };
         let mut file = lzma_header(c.props, c.dict, size);
         file.extend_from_slice(&enc.payload);
+        if c.mode == Mode::StreamIncomplete {
+            return self.judge_incomplete(c, st, &file, &expected, d);
+        }
         let expect_ok = need <= c.m;
         // classification
         st.class(&format!("m:{}", c.m_class));
@@ -225,7 +301,7 @@ impl Property for C10 {
                 let r = sut::raw_lzma(c.props, c.dict, size, Some(c.m), &enc.payload, &ReaderKind::Slice, &io);
                 (r.verdict, r.sink.total, r.sink.hash)
             }
-            Mode::Stream => {
+            Mode::Stream | Mode::StreamIncomplete => {
                 let r = sut::stream_run_ext(&file, &opts, &script, &sink, false, false);
                 (r.verdict, r.sink.total, r.sink.hash)
             }
